@@ -95,8 +95,12 @@ class MTSPEnv(RL4COEnvBase):
         # If done is True, then we make the depot available again, so that it will be selected as the next node with prob 1
         available[..., 0] = torch.logical_or(done, available[..., 0])
 
+        # Rows that were already finished before this step (no city left in the incoming mask) only receive
+        # padding actions: they must not accumulate any more
+        was_done = torch.count_nonzero(td["action_mask"][..., 1:], dim=-1) == 0
+
         # Update the current length
-        current_length = td["current_length"] + get_distance(cur_loc, prev_loc)
+        current_length = td["current_length"] + get_distance(cur_loc, prev_loc) * (~was_done).float()
 
         # If done, we add the distance from the current_node to the depot as well
         current_length = torch.where(
